@@ -899,6 +899,132 @@ func main() {
 	emitPairsAllowEmpty("dl_chan_makes", chanMakes)
 	emitPairsAllowEmpty("dl_chan_sends", chanSends)
 
+	// ---- C19: package-level mutable state.  Every assignment, element assignment, ++/--,
+	// append-to-self or delete whose destination is a package-level variable of the library
+	// (root package, datalog, parser; non-test, non-generated files), outside init functions
+	// and package-level initialisers: goroutines that share nothing explicitly still share these.
+	var pkgWrites [][2]string
+	for _, dir := range []string{".", "datalog", "parser"} {
+		ents, err := os.ReadDir(filepath.Join(repo, dir))
+		if err != nil {
+			continue
+		}
+		var files []*ast.File
+		var names []string
+		for _, e := range ents {
+			n := e.Name()
+			if e.IsDir() || !strings.HasSuffix(n, ".go") || strings.HasSuffix(n, "_test.go") || strings.HasSuffix(n, ".pb.go") || strings.HasPrefix(n, "verif_") {
+				continue
+			}
+			files = append(files, parseFile(filepath.Join(repo, dir, n)))
+			names = append(names, filepath.Join(dir, n))
+		}
+		globals := map[string]bool{}
+		for _, f := range files {
+			for _, d := range f.Decls {
+				if gd, ok := d.(*ast.GenDecl); ok && gd.Tok == token.VAR {
+					for _, sp := range gd.Specs {
+						for _, n := range sp.(*ast.ValueSpec).Names {
+							globals[n.Name] = true
+						}
+					}
+				}
+			}
+		}
+		rootIdent := func(e ast.Expr) string {
+			for {
+				switch x := e.(type) {
+				case *ast.Ident:
+					return x.Name
+				case *ast.IndexExpr:
+					e = x.X
+				case *ast.SelectorExpr:
+					e = x.X
+				case *ast.StarExpr:
+					e = x.X
+				case *ast.ParenExpr:
+					e = x.X
+				case *ast.SliceExpr:
+					e = x.X
+				default:
+					return ""
+				}
+			}
+		}
+		for fi, f := range files {
+			for _, d := range f.Decls {
+				fd, ok := d.(*ast.FuncDecl)
+				if !ok || fd.Body == nil || (fd.Name.Name == "init" && fd.Recv == nil) {
+					continue
+				}
+				// names shadowed by parameters / receivers / local declarations are not globals here
+				local := map[string]bool{}
+				if fd.Recv != nil {
+					for _, fl := range fd.Recv.List {
+						for _, n := range fl.Names {
+							local[n.Name] = true
+						}
+					}
+				}
+				for _, fl := range fd.Type.Params.List {
+					for _, n := range fl.Names {
+						local[n.Name] = true
+					}
+				}
+				ast.Inspect(fd.Body, func(n ast.Node) bool {
+					switch x := n.(type) {
+					case *ast.AssignStmt:
+						if x.Tok == token.DEFINE {
+							for _, l := range x.Lhs {
+								if id, ok := l.(*ast.Ident); ok {
+									local[id.Name] = true
+								}
+							}
+						}
+					case *ast.ValueSpec:
+						for _, id := range x.Names {
+							local[id.Name] = true
+						}
+					case *ast.RangeStmt:
+						if x.Tok == token.DEFINE {
+							for _, l := range []ast.Expr{x.Key, x.Value} {
+								if id, ok := l.(*ast.Ident); ok {
+									local[id.Name] = true
+								}
+							}
+						}
+					}
+					return true
+				})
+				note := func(dst ast.Expr, how string) {
+					if r := rootIdent(dst); r != "" && globals[r] && !local[r] {
+						var sb strings.Builder
+						printer.Fprint(&sb, token.NewFileSet(), dst)
+						pkgWrites = append(pkgWrites, [2]string{names[fi] + ":" + fd.Name.Name, how + " " + strings.Join(strings.Fields(sb.String()), " ")})
+					}
+				}
+				ast.Inspect(fd.Body, func(n ast.Node) bool {
+					switch x := n.(type) {
+					case *ast.AssignStmt:
+						if x.Tok != token.DEFINE {
+							for _, l := range x.Lhs {
+								note(l, "assign")
+							}
+						}
+					case *ast.IncDecStmt:
+						note(x.X, "incdec")
+					case *ast.CallExpr:
+						if id, ok := x.Fun.(*ast.Ident); ok && (id.Name == "delete" || id.Name == "copy" || id.Name == "clear") && len(x.Args) > 0 {
+							note(x.Args[0], id.Name)
+						}
+					}
+					return true
+				})
+			}
+		}
+	}
+	emitPairsAllowEmpty("pkg_state_write_sites", pkgWrites)
+
 	if err := os.WriteFile(os.Args[2], []byte(out.String()), 0o644); err != nil {
 		die("%v", err)
 	}
